@@ -34,6 +34,10 @@ def check(repo, col, tier):
     _concat(repo, col)
     _offsets(repo, col)
     _channels(repo, col)
+    # the merged level schedule keeps every level of every cell (shared with C01)
+    from . import c01_solver
+    col.rule("R-C12-merge", "merged level schedule contains every level of every cell", 2)
+    c01_solver._merge(repo, col, "R-C12-merge")
 
 
 def _stores(ex, name):
